@@ -17,6 +17,18 @@ def parseScalar (s : String) : Option (Scalar Float) :=
   else if s = "b:1" then some (.bool true) else if s = "b:0" then some (.bool false)
   else (parseNum s).map Scalar.num
 
+/-- `n`, `b:0`, `i:..`, `f:..` or a dict `{k=v;k=v}` -/
+def parseVal (s : String) : Option (Val Float) :=
+  if s.startsWith "{" && s.endsWith "}" then
+    let body := ((s.drop 1).dropEnd 1).toString
+    if body.isEmpty then some (.dict []) else
+    let kvs := (body.splitOn ";").filterMap fun kv =>
+      match kv.splitOn "=" with
+      | [k, v] => (parseScalar v).map fun x => (k, x)
+      | _ => none
+    some (.dict kvs)
+  else (parseScalar s).map Val.s
+
 def parseAnalysis (ps : List (String × String)) : Option Analysis :=
   let a := pStr ps "a" "close"; let b := pStr ps "b" "open"
   let ind := pStr ps "ind" "close"
